@@ -77,3 +77,12 @@ Theorem C01_fields_reachable_wf :
            (snd (build_cfg fleaf (cf_default orc) fl_callable w fs)) dyn vs fs).
 Proof. exact cf_reachable_wf. Qed.
 Print Assumptions C01_fields_reachable_wf.
+
+(* the guard never fires on the load route either: to_python of plain document data yields plain data or a proxy of the
+   field with validated items, on which the leaf validator is Fields.validate_with (outside the F13 region, where a
+   validated item need not be a fixed point of its own field) *)
+Theorem C01_fields_load_route_transparent :
+  forall (orc : oracle) (f : fleaf) (xi x' : pyval), has_F13 (fl_fld f) = false -> plain xi = true ->
+    cf_to_python orc f xi = Ok x' -> cf_validate orc f x' = validate_with orc (fl_fld f) x'.
+Proof. exact cf_validate_after_to_python. Qed.
+Print Assumptions C01_fields_load_route_transparent.
